@@ -648,6 +648,12 @@ def str_split(s, sep):
   return k.unbox(sym.ufun('str_split', sym.Str, sym.Str, k.sort())(s, sep))
 
 
+def str_xsplit1(which, s, sep):
+  """s.rsplit(sep, 1) / s.split(sep, 1): one or two pieces (uninterpreted)."""
+  k = KList(KStr)
+  return k.unbox(sym.ufun('str_' + which + '1', sym.Str, sym.Str, k.sort())(s, sep))
+
+
 def _str_method(ex, obj, name, args, kwargs, node):
   if name == 'join':
     lst = args[0]
@@ -661,6 +667,12 @@ def _str_method(ex, obj, name, args, kwargs, node):
     r = str_split(obj.e, args[0].e)
     ex.path.assume(r.len >= 1)
     return r
+  if name in ('rsplit', 'split') and (len(args) == 2 or 'maxsplit' in kwargs):
+    mx = args[1] if len(args) == 2 else kwargs['maxsplit']
+    if isinstance(mx, VInt) and mx.concrete() == 1:
+      r = str_xsplit1(name, obj.e, args[0].e)
+      ex.path.assume(z3.And(r.len >= 1, r.len <= 2))
+      return r
   if name == 'format':
     parts = []
     pat = obj.concrete()
